@@ -5,7 +5,7 @@
    later duplicates win, maps merge, null empties a map), so [k_attrs k] IS
    "the attributes that appear in the payload's attributes object". *)
 From JV Require Import Model.Base Model.GoTime Gen.TypeGo Model.Schema Model.Value
-  Model.Json Model.SoftRes Model.Wrapper Model.Resource Model.Unmarshal Proofs.C14Facts Proofs.SoftFacts Proofs.C13Facts Proofs.C13Rels Proofs.C13Values.
+  Model.Json Model.SoftRes Model.Wrapper Model.Resource Model.Unmarshal Proofs.C14Facts Proofs.SoftFacts Proofs.C13Facts Proofs.C13Rels Proofs.C13Values Proofs.C05Mixed.
 
 (* accepted by partial unmarshaling iff accepted by full unmarshaling (and a
    panic on one side is a panic on the other); proved for schemas of soft
@@ -16,6 +16,17 @@ Theorem C13_accept_iff_partial : forall e s j,
   is_panic (unmarshal_partial e s j) = is_panic (unmarshal_resource e s j).
 Proof. exact accept_iff. Qed.
 Print Assumptions C13_accept_iff_partial.
+
+(* ... and the same for schemas that mix soft and struct-backed types (every
+   struct one Wrap accepts, the schema type the built one): full unmarshaling
+   Sets the decoded values on a struct, partial unmarshaling on a soft
+   resource, and both stop at the same member of the payload *)
+Theorem C13_accept_iff_mixed : forall e s j,
+  sch_ok s ->
+  is_ok (unmarshal_partial e s j) = is_ok (unmarshal_resource e s j) /\
+  is_panic (unmarshal_partial e s j) = is_panic (unmarshal_resource e s j).
+Proof. exact accept_iff_mixed. Qed.
+Print Assumptions C13_accept_iff_mixed.
 
 (* the resulting type has the schema type's name *)
 Theorem C13_type_name : forall e s j p,
